@@ -147,5 +147,33 @@ Theorem valid_sound_hdf5 : forall f, validate_hdf5 f = true -> valid_h5 f.
 Proof. exact ValidatorProofs.valid_sound_hdf5. Qed.
 Print Assumptions valid_sound_hdf5.
 
+(* the same under the requested version as run() passes it on: the core (attributes, the four
+   matrix/axis groups, datasets, shape, IDs, matrices) in every case; asked for 2.0 the file has
+   to say (2, 0); otherwise it has to say (2, 1) and have the four metadata groups *)
+Theorem valid_sound_hdf5_as : forall ver f,
+  validate_hdf5_as ver f = true -> valid_h5_core f /\ version_ok ver f.
+Proof. exact ValidatorProofs.valid_sound_hdf5_as. Qed.
+Print Assumptions valid_sound_hdf5_as.
+
+(* run(): None, 'None', '2.1', '2.1.0' all validate against 2.1; '2.0', '2.0.0' against 2.0; other
+   texts are refused with ValueError; a JSON file only takes None, 'None', '1.0.0' *)
+Theorem run_version_spellings :
+  run_version_hdf5 None = ROk HV21 /\ run_version_hdf5 (Some (K "None")) = ROk HV21
+  /\ run_version_hdf5 (Some (K "2.1")) = ROk HV21 /\ run_version_hdf5 (Some (K "2.1.0")) = ROk HV21
+  /\ run_version_hdf5 (Some (K "2.0")) = ROk HV20 /\ run_version_hdf5 (Some (K "2.0.0")) = ROk HV20
+  /\ run_version_hdf5 (Some (K "1.0.0")) = RErr E_VALUE /\ run_version_hdf5 (Some (K "3.0")) = RErr E_VALUE
+  /\ run_version_hdf5 (Some (K "2")) = RErr E_VALUE /\ run_version_hdf5 (Some (K "x.y")) = RErr E_VALUE
+  /\ run_version_json None = ROk tt /\ run_version_json (Some (K "None")) = ROk tt
+  /\ run_version_json (Some (K "1.0.0")) = ROk tt /\ run_version_json (Some (K "1.0")) = RErr E_VALUE
+  /\ run_version_json (Some (K "2.1")) = RErr E_VALUE.
+Proof. exact ValidatorProofs.run_version_spellings. Qed.
+Print Assumptions run_version_spellings.
+
+Theorem run_hdf5_sound : forall fv f lines,
+  run_hdf5 fv f = ROk (true, lines) ->
+  exists ver, run_version_hdf5 fv = ROk ver /\ valid_h5_core f /\ version_ok ver f.
+Proof. exact ValidatorProofs.run_hdf5_sound. Qed.
+Print Assumptions run_hdf5_sound.
+
 Example valid_sound_hdf5_witness : validate_hdf5 witness_h5 = true.
 Proof. exact ValidatorProofs.witness_h5_valid. Qed.
